@@ -274,59 +274,61 @@ func genProgram(r *vh.Rng, big bool) (string, []byte) {
 	return strings.Join(kinds, ","), o.ToByteArray()
 }
 
-// readProgram performs the reads of the given kinds with the real DataInputX.
-func readProgram(kinds string, in *gio.DataInputX) {
+// readProgram performs the reads of the given kinds with the real DataInputX and returns the values read.
+func readProgram(kinds string, in *gio.DataInputX) []interface{} {
+	var vals []interface{}
 	if kinds == "-" || kinds == "" {
-		return
+		return vals
 	}
 	for _, k := range strings.Split(kinds, ",") {
 		switch k {
 		case "bool":
-			in.ReadBool()
+			vals = append(vals, in.ReadBool())
 		case "byte":
-			in.ReadByte()
+			vals = append(vals, in.ReadByte())
 		case "short":
-			in.ReadShort()
+			vals = append(vals, in.ReadShort())
 		case "ushort":
-			in.ReadUnsignedShort()
+			vals = append(vals, in.ReadUnsignedShort())
 		case "int3":
-			in.ReadInt3()
+			vals = append(vals, in.ReadInt3())
 		case "int":
-			in.ReadInt()
+			vals = append(vals, in.ReadInt())
 		case "long5":
-			in.ReadLong5()
+			vals = append(vals, in.ReadLong5())
 		case "long":
-			in.ReadLong()
+			vals = append(vals, in.ReadLong())
 		case "float":
-			in.ReadFloat()
+			vals = append(vals, in.ReadFloat())
 		case "double":
-			in.ReadDouble()
+			vals = append(vals, in.ReadDouble())
 		case "decimal":
-			in.ReadDecimal()
+			vals = append(vals, in.ReadDecimal())
 		case "blob":
-			in.ReadBlob()
+			vals = append(vals, in.ReadBlob())
 		case "text":
-			in.ReadText()
+			vals = append(vals, in.ReadText())
 		case "shortBytes":
-			in.ReadShortBytes()
+			vals = append(vals, in.ReadShortBytes())
 		case "intBytes":
-			in.ReadIntBytes()
+			vals = append(vals, in.ReadIntBytes())
 		case "textShort":
-			in.ReadTextShortLength()
+			vals = append(vals, in.ReadTextShortLength())
 		case "shortArr":
-			in.ReadShortArray()
+			vals = append(vals, in.ReadShortArray())
 		case "intArr":
-			in.ReadIntArray()
+			vals = append(vals, in.ReadIntArray())
 		case "longArr":
-			in.ReadLongArray()
+			vals = append(vals, in.ReadLongArray())
 		case "floatArr":
-			in.ReadFloatArray()
+			vals = append(vals, in.ReadFloatArray())
 		case "doubleArr":
-			in.ReadDoubleArray()
+			vals = append(vals, in.ReadDoubleArray())
 		case "textArr":
-			in.ReadTextArray()
+			vals = append(vals, in.ReadTextArray())
 		default:
 			panic("harness: unknown kind " + k)
 		}
 	}
+	return vals
 }
